@@ -620,6 +620,25 @@ FAMILIES = {
 }
 
 
+def gen_file(rng, path=None):
+    """A stored witness instance (independent of the generators' random streams)."""
+    import json
+    import os
+
+    from . import boot
+
+    with open(os.path.join(boot.VERIF, path)) as f:
+        d = json.load(f)
+    fl = lambda a: np.array([float(v) for v in a])  # noqa: E731
+    spec = Spec(np.array(d["Q"]), np.array(d["q"]), np.array(d["A"]), np.array(d["e"]), fl(d["var_lb"]),
+                fl(d["var_ub"]), fl(d["cons_lb"]), fl(d["cons_ub"]), x0=np.array(d["x0"]),
+                meta={"family": "QP-dense", "xs": np.array(d["xs"]), "witness": path})
+    return spec
+
+
+FAMILIES["FILE"] = lambda rng, **kw: gen_file(rng, **kw)
+
+
 def make_spec(fam, gseed, **kw):
     """Deterministic spec from (family, seed list, options) -- what a replay file stores."""
     rng = rng_for("spec", fam, *gseed)
